@@ -105,7 +105,10 @@ class C04:
         rep.check("C04.R5", "handle_rename|by-id", hr, ok, "rename(sync[synced].oid, translated_path)", "the peer is not renamed by its stored id to the translated path")
         res = {n.targets[0].id for n in ctx.own_nodes(hr) if isinstance(n, ast.Assign) and any(n.value is c for c in calls) and isinstance(n.targets[0], ast.Name)}
         ups = [c for c in ctx.calls(hr, "update_entry")]
-        ok = bool(res) and bool(ups) and all(any(isinstance(x, ast.Name) and x.id in res for k in c.keywords if k.arg == "oid" for x in ast.walk(k.value)) for c in ups)
+        # update_entry(ent, side, oid=None, ...): the id may be passed by keyword or as the third positional argument
+        def _oid_arg(c):
+            return [k.value for k in c.keywords if k.arg == "oid"] + ([c.args[2]] if len(c.args) > 2 else [])
+        ok = bool(res) and bool(ups) and all(any(isinstance(x, ast.Name) and x.id in res for v in _oid_arg(c) for x in ast.walk(v)) for c in ups)
         rep.check("C04.R5", "handle_rename|new-id-recorded", hr, ok, "the id returned by rename() is recorded for the renamed side",
                   "the id returned by the provider's rename is dropped: with path-style ids the entry keeps the old id and a second rename of the same object duplicates it")
 
